@@ -37,6 +37,8 @@ Calibration
   broadcasting to the selection shape; the statement says "broadcastable value", so they are not generated
   (side observation while calibrating: dask accepts them without, and fails with, an integer index).
 * n-d NumPy boolean masks are not among the documented assignment indices (dask raises IndexError): rejected.
+* Family labels ``int+negative-step-slice`` and ``int+int-array`` with symptom classes raises | wrong-result: the shrunk
+  forms and exception sites of these two setitem_array defects varied from seed to seed (thorough run).
 * Labels of the where() path and of empty selections are built from direct predicates of the case instead of the
   shrinker (the shrunk forms varied from seed to seed); value kinds are reduced to scalar | array.
 """
@@ -85,12 +87,10 @@ PENDING = {
     "setitem:slice[negstep,start<-n]&value=scalar:values": "x[-6::-1] = v on n=4 assigns where NumPy selects nothing",
     # integer index in front of other indices: positions in setitem_array are array dimensions where positions in
     # implied_shape are needed.  Fix proposed in findings_proposed/C21.md
-    "setitem:int+slice[negstep]&value=scalar:IndexError@array/slicing.py:setitem_array": "x[3, ::-2] = 1 raises IndexError: tuple index out of range",
-    "setitem:int+slice[negstep]&value=array:values": "x[1, ::-1] = v on a 3-d array reverses the wrong value axis - silent",
-    "setitem:int+slice[negstep,|step|>1]&value=array:values": "same, |step| > 1 needed by the witness",
-    "setitem:int+int-list&value=array:TypeError@array/slicing.py:setitem_array": "x[0, [6, 5, 4]] = [..]: NoneType + NoneType",
-    "setitem:int+int-list[dup]&value=array:TypeError@array/slicing.py:setitem_array": "same on an axis of length 1 ([0, 0])",
-    "setitem:int+int-list&value=array:values": "same mechanism, wrong part of the value assigned - silent",
+    "setitem:int+negative-step-slice:raises": "x[3, ::-2] = 1 raises IndexError: tuple index out of range (family label)",
+    "setitem:int+negative-step-slice:wrong-result": "x[1, ::-1] = v on a 3-d array reverses the wrong value axis - silent (family label)",
+    "setitem:int+int-array:raises": "x[0, [6, 5, 4]] = [..]: TypeError NoneType + NoneType (also ValueError / IndexError variants; family label)",
+    "setitem:int+int-array:wrong-result": "same mechanism, wrong part of the value assigned - silent (family label)",
     # 1-d dask boolean index inside a tuple, value of length 1 along that axis: later blocks are not assigned
     "setitem:dask-bool-array&split-chunks&value=array:values": "x[da_mask, :] = v with v.shape[0] == 1: only the first block with a True is assigned - silent",
     "setitem:dask-bool-array+int&split-chunks&value=array:values": "same with an integer index",
@@ -109,7 +109,6 @@ PENDING = {
     "setitem:whole-array-dask-mask&value=1-element-array:TypeError@array/reshape.py:reshape_rechunk": "same family (zero-length axis)",
     "setitem:whole-array-dask-mask&zero-size-chunk:wrong-result": "x[mask] = 0 on chunks ((2, 0, 1),): computed shape differs from the array's shape",
     "setitem:whole-array-dask-mask&zero-size-chunk:raises": "same family: Missing dependency / KeyError when the graph is evaluated",
-    "setitem:int+int-list&value=array:ValueError@array/slicing.py:setitem": "same mechanism as the int+int-list TypeError (wrong part of the value reaches the block)",
     "setitem:whole-array-dask-mask&value=1-element-array:IndexError@array/reshape.py:reshape_rechunk": "same family (zero-length axes)",
     "setitem:tuple-wrapped-whole-array-dask-mask:IndexError@array/slicing.py:parse_assignment_indices": "x[(mask,)] = 0 raises where x[mask] = 0 works",
     "setitem:tuple-wrapped-whole-array-dask-mask:values": "same, 1-d case",
@@ -475,8 +474,16 @@ def classify(shape, chunks, dtype, enc, bare, vmode, vkind, vseed, sym):
     vtok = "scalar" if vm in SCALARLIKE else "array"
     feat = IX.label_features(enc_m, shape_m, chunks_m)
     label = "setitem:%s&value=%s:%s" % (feat, vtok, sym_m)
+    toks = IX.tokens(enc_m, shape_m)
+    has_int = any(t in ("int", "int<0", "np-int", "np-int<0") for t in toks)
+    cls = "wrong-result" if sym_m in MISMATCH_SYMPTOMS else "raises"
+    if has_int and any(t.startswith("slice[negstep") for t in toks) and not any("start<-n" in t for t in toks):
+        # family: an integer index in front of a negative-step slice (positions of ``reverse`` in setitem_array)
+        label = "setitem:int+negative-step-slice:" + cls
+    elif has_int and any(t.startswith(("int-list", "int-array", "dask-int-array")) for t in toks):
+        # family: an integer index in front of an integer list (``dim_1d_int_index`` in setitem_array)
+        label = "setitem:int+int-array:" + cls
     if IX.zero_chunk_inside(chunks_m):
-        toks = IX.tokens(enc_m, shape_m)
         fam = ("dask-index-array" if any(t.startswith("dask-") for t in toks) else
                "int-or-bool-array" if any(t.startswith(("int-list", "int-array", "bool-list", "bool-array")) for t in toks) else
                "slice" if any(t.startswith("slice") for t in toks) else "basic-index")
